@@ -51,11 +51,18 @@
 (*   it on); Send of such a copy, once valid, broadcasts it and then fails *)
 (*   (raises) while recording it in the wallet: see SendRaises (how a copy *)
 (*   arrived is read off the history).                                     *)
+(*   "resign-scrambles-unattributed-signatures"  a dictionary carries bare *)
+(*   signatures; the importer learns which key made which signature only   *)
+(*   for the first m it verifies.  Sign on a copy that arrived that way    *)
+(*   and holds more than m signatures re-sorts the list wrongly (one       *)
+(*   signature duplicated, another dropped; the result may no longer       *)
+(*   verify): see SignScrambles.  Nothing is predicted for that copy       *)
+(*   afterwards.                                                           *)
 (***************************************************************************)
 EXTENDS Naturals, Sequences, FiniteSets
 
 Forms == {"object", "dict", "file", "raw"}
-DeviationNames == {"raw-omits-partial-multisig", "dict-import-send-raises"}
+DeviationNames == {"raw-omits-partial-multisig", "dict-import-send-raises", "resign-scrambles-unattributed-signatures"}
 
 Perms(n) == {p \in [1..n -> 1..n] : \A i, j \in 1..n : i # j => p[i] # p[j]}
 Range(f) == {f[i] : i \in DOMAIN f}
@@ -110,6 +117,10 @@ A_Send(cfg, s, w) ==
 \* via = how w's copy arrived ("dict": imported from a dictionary, possibly passed on as object or file since), a fact of
 \* the history that no other rule depends on
 SendRaises(cfg, s, w, via, devs) == "dict-import-send-raises" \in devs /\ Valid(cfg, s.copy[w]) /\ via = "dict"
+
+\* Sign(w) may leave a corrupted signature list behind: the input class of the deviation (via as for SendRaises)
+SignScrambles(cfg, s, w, via, devs) == "resign-scrambles-unattributed-signatures" \in devs /\ s.copy[w].has
+                                       /\ via = "dict" /\ NSig(s.copy[w]) > cfg.m
 
 \* one event a = [op, w, v, form] ("send_to" = Propose; Sign; Send in one call of the wallet API)
 Compose(F(_), S) == UNION {F(x) : x \in S}
